@@ -51,6 +51,8 @@ class World:
         self.upper = z3.Function('upper', z3.StringSort(), z3.StringSort())
         self.lower = z3.Function('lower', z3.StringSort(), z3.StringSort())
         self.capitalize = z3.Function('capitalize', z3.StringSort(), z3.StringSort())
+        self.nwords = z3.Function('nwords', z3.StringSort(), z3.IntSort())       # len(s.split())
+        self.word = z3.Function('word', z3.StringSort(), z3.IntSort(), z3.StringSort())   # s.split()[i]
 
     @classmethod
     def get(cls):
@@ -507,6 +509,8 @@ class Exec:
                     return self.disj([item.z == z3.StringVal(k) for k in container if isinstance(k, str)])
                 raise OutsideSubset('in dict')
             return item in container
+        if isinstance(container, Opaque) and isinstance(container.data, dict) and 'contains' in container.data:
+            return container.data['contains'](self, container, item, st)
         h = getattr(self, 'contains_ext', None)
         if h:
             r = h(item, container, st)
@@ -867,6 +871,19 @@ class Exec:
             if i in o:
                 return [(st, o[i])]
             raise PyExc('KeyError', repr(i))
+        if isinstance(o, Opaque) and isinstance(o.data, dict) and 'index' in o.data:
+            return o.data['index'](self, o, i, st)
+        if isinstance(o, LRef) and isinstance(i, int) and not isinstance(i, bool):
+            items = st.lists[o.lid]
+            if all(it[0] == 'el' for it in items):
+                try:
+                    return [(st, items[i][1])]
+                except IndexError:
+                    raise PyExc('IndexError', 'list index out of range')
+            if i >= 0 and all(it[0] == 'el' for it in items[:i + 1]) and len(items) > i:
+                return [(st, items[i][1])]
+            if i < 0 and len(items) >= -i and all(it[0] == 'el' for it in items[i:]):
+                return [(st, items[i][1])]
         h = getattr(self, 'index_ext', None)
         if h:
             r = h(o, i, st)
@@ -988,6 +1005,7 @@ class Exec:
         return done + [(s, Outcome.NEXT, None) for s in cur]
 
     def exec_stmt(self, stmt, st):
+        outer_pending = getattr(self, '_pending_raises', [])
         self._pending_raises = []
         self.npaths += 1
         if self.npaths > self.max_paths * 50:
@@ -999,7 +1017,7 @@ class Exec:
             res = m(stmt, st)
         except PyExc as e:
             res = [(st, Outcome.RAISE, e)]
-        pend, self._pending_raises = self._pending_raises, []
+        pend, self._pending_raises = self._pending_raises, outer_pending
         for s, c, msg in pend:
             res.append((s, Outcome.RAISE, PyExc(c, msg)))
         return res
